@@ -239,6 +239,11 @@ func c11Bundle(r *fw.Rand) (*ref.Bundle, []*ref.Msg) {
 		}
 		main.Body = append(main.Body, iff, &ref.Raw{Text: "after:"}, mk())
 	}
+	if r.P(1, 3) {
+		// a message in the {ifempty} branch of a loop over nothing
+		main.Body = append(main.Body, &ref.Foreach{Var: "q", List: &ref.ListLit{}, Keyword: "foreach", Body: []ref.Node{&ref.Raw{Text: "never"}},
+			HasEmpty: true, IfEmpty: []ref.Node{&ref.Raw{Text: "empty:"}, mk()}})
+	}
 	if r.Bool() {
 		// messages inside content blocks: their translated text belongs to the block, like everything else in it
 		if r.Bool() {
